@@ -27,6 +27,26 @@ var c14Versions = map[resolve.System][]string{
 	resolve.PyPI:  {"1.0.1", "1.1.1", "2.0.1", "2.0.1rc1", "3.0.1"},
 }
 
+// c14Exotic is a second alphabet, drawn for a third of the runs: version
+// strings that are legal but unusual. For npm several of them do not parse
+// (they are listed after the parsable ones, whatever their spelling: some
+// sort before and some after valid versions as plain strings); two-digit
+// components order numerically, not as strings; Maven SNAPSHOTs and
+// qualifiers, PyPI post/dev releases and an epoch. Within one alphabet no two
+// versions compare equal.
+var c14Exotic = map[resolve.System][]string{
+	resolve.NPM:   {"1.0.0", "1.0.0.0", "1.1.0", "nightly", "10.0.0", "2.0.0-rc.1", "1.1.0_1", "2.0.0"},
+	resolve.Maven: {"1.0.1", "1.0.1-SNAPSHOT", "1.1", "10.0", "2.0.1-rc-1", "2.0.1", "2.0.1-sp-1"},
+	resolve.PyPI:  {"1.0.1", "1.0.1.post1", "2.0.1.dev1", "10.0", "1!0.5", "2.0.1rc1", "2.0.1"},
+}
+
+// c14Unparsable reports whether ver does not parse in its system (only npm
+// alphabets contain such strings).
+func c14Unparsable(sys resolve.System, ver string) bool {
+	_, err := sys.Semver().Parse(ver)
+	return err != nil
+}
+
 var c14Pkgs = map[resolve.System][]string{
 	resolve.NPM:   {"alpha", "bravo", "@sc/chuck", "Delta"},
 	resolve.Maven: {"org.ex:alpha", "org.ex:bravo", "com.o:chuck", "org.ex:delta"},
@@ -174,6 +194,7 @@ type c14Checker struct {
 	// explicit is set while a read operation drawn from the tape is being
 	// checked (as opposed to the model sweep after an addition).
 	explicit bool
+	alphabet map[resolve.System][]string
 }
 
 func (k *c14Checker) bad(key string, format string, args ...any) {
@@ -392,7 +413,7 @@ func (k *c14Checker) sweep() {
 			for _, name := range lists {
 				pk := resolve.PackageKey{System: sys, Name: name}
 				k.checkVersions(pk)
-				for _, v := range c14Versions[sys] {
+				for _, v := range k.alphabet[sys] {
 					vk := resolve.VersionKey{PackageKey: pk, VersionType: resolve.Concrete, Version: v}
 					k.checkVersion(vk)
 					k.checkRequirements(vk)
@@ -413,6 +434,13 @@ func RunC14(t *kernel.Tape, o Opts) *Result {
 	nsys := t.Range(1, 3)
 	npk := t.Range(1, 4)
 	nver := t.Range(1, 5)
+	alphabet := c14Versions
+	if t.Bool(1, 3) {
+		alphabet = c14Exotic
+		nver = t.Range(2, 8)
+		fault(res, "exotic_version_alphabet_runs", 1)
+	}
+	k.alphabet = alphabet
 	readds, deleted, reads := 0, 0, 0
 	for step := 0; step < nops; step++ {
 		k.step = step
@@ -420,10 +448,13 @@ func RunC14(t *kernel.Tape, o Opts) *Result {
 		pkgs := c14Pkgs[sys]
 		name := pkgs[t.Choose(npk)]
 		pk := resolve.PackageKey{System: sys, Name: name}
-		vs := c14Versions[sys]
+		vs := alphabet[sys]
 		nv := nver
 		if sys == resolve.NPM && nv == 5 && t.Bool(1, 4) {
 			nv = 6 // include the unparsable npm version
+		}
+		if nv > len(vs) {
+			nv = len(vs)
 		}
 		ver := vs[t.Choose(nv)]
 		vk := resolve.VersionKey{PackageKey: pk, VersionType: resolve.Concrete, Version: ver}
@@ -485,7 +516,7 @@ func RunC14(t *kernel.Tape, o Opts) *Result {
 			case 0:
 				req = map[resolve.System]string{resolve.NPM: "*", resolve.Maven: "[0,)", resolve.PyPI: ""}[sys]
 			case 1:
-				if ver != "not-a-version" {
+				if !c14Unparsable(sys, ver) {
 					req, exact = c14ExactReq(sys, ver), ver
 				} else {
 					req, exact = ver, ver
@@ -527,7 +558,7 @@ func RunC14(t *kernel.Tape, o Opts) *Result {
 					vk.VersionType = resolve.Requirement
 					if t.Bool(1, 2) {
 						vk.Version = map[resolve.System]string{resolve.NPM: "*", resolve.Maven: "[0,)", resolve.PyPI: ""}[vk.System]
-					} else if vk.Version != "not-a-version" {
+					} else if !c14Unparsable(vk.System, vk.Version) {
 						vk.Version = c14ExactReq(vk.System, vk.Version)
 					}
 				}
